@@ -101,12 +101,19 @@ type LAction = ActorModelAction<MsgWrapper<u8>, TimerWrapper<()>, ()>;
 #[derive(Clone, Debug)]
 pub struct LinkSystem {
     pub actors: Vec<LinkActor>,
+    /// Some sender emits an equal payload twice to one peer: messages are then identified by
+    /// their position in the sequence only, and such systems are walked without overtaking (the
+    /// recorded finding is told from other gaps by sequencers recovered from unique payloads).
+    pub repeats: bool,
 }
 
 fn gen_link_system(rng: &mut Rng) -> LinkSystem {
     let n = rng.range(2, 3);
     // two systems in five contain stateless reactions
     let quiet_allowed = rng.pct(40);
+    // one system in five sends equal payloads more than once to the same peer (the link must
+    // hand over both: "the sequence handed over is a prefix of the sequence sent")
+    let repeats = rng.pct(20);
     let mut next_payload = 0u8;
     let mut fresh = |_: &mut Rng| {
         next_payload += 1;
@@ -122,9 +129,16 @@ fn gen_link_system(rng: &mut Rng) -> LinkSystem {
         let peer = (s + 1 + rng.below(n - 1)) % n;
         for _ in 0..k {
             let d = if single_peer { peer } else { (s + 1 + rng.below(n - 1)) % n };
-            let p = fresh(rng);
+            let again = actors[s].start.iter().rev().find(|(pd, _)| *pd == d).map(|(_, p)| *p);
+            let p = match again {
+                Some(p) if repeats && rng.pct(45) => p,
+                _ => {
+                    let p = fresh(rng);
+                    all_payloads.push((d, p));
+                    p
+                }
+            };
             actors[s].start.push((d, p));
-            all_payloads.push((d, p));
         }
     }
     // reactions: being handed some payload triggers further sends (bounded: fresh payloads do
@@ -143,7 +157,11 @@ fn gen_link_system(rng: &mut Rng) -> LinkSystem {
             }
         }
     }
-    LinkSystem { actors }
+    let repeats = actors.iter().any(|a| {
+        let mut seen = BTreeSet::new();
+        a.start.iter().any(|x| !seen.insert(*x))
+    });
+    LinkSystem { actors, repeats }
 }
 
 impl LinkSystem {
@@ -232,9 +250,10 @@ pub fn check_logs(s: &LModelState, logs: &Logs, quiet: Option<&[BTreeSet<u8>]>) 
             let handed: Vec<u8> = logs.handed[receiver].iter().filter(|(src, _)| *src == sender).map(|(_, m)| *m).collect();
             let pend: Vec<u8> = pending.iter().filter(|(_, d, m)| *d == receiver && !hidden(m)).map(|(_, _, m)| *m).collect();
             let mk = |what| LinkViolation { what, sender, receiver, sent: sent.clone(), handed: handed.clone(), pending: pend.clone() };
-            // classify from the most specific to the least
-            let distinct: BTreeSet<u8> = handed.iter().copied().collect();
-            if distinct.len() != handed.len() {
+            // classify from the most specific to the least (payloads may repeat: everything is
+            // stated on sequences and multiplicities)
+            let count = |v: &[u8], m: u8| v.iter().filter(|x| **x == m).count();
+            if handed.iter().any(|m| count(&sent, *m) >= 1 && count(&handed, *m) > count(&sent, *m)) {
                 out.push(mk("message-handed-over-twice"));
                 continue;
             }
@@ -245,19 +264,29 @@ pub fn check_logs(s: &LModelState, logs: &Logs, quiet: Option<&[BTreeSet<u8>]>) 
                 out.push(mk("message-handed-over-that-was-never-sent-to-this-peer"));
                 continue;
             }
-            // order: positions in `sent` must increase
-            let pos: Vec<usize> = handed.iter().map(|m| sent.iter().position(|x| x == m).unwrap()).collect();
-            if pos.windows(2).any(|w| w[0] > w[1]) {
+            // order: `handed` must be a subsequence of `sent`
+            let mut at = 0usize;
+            let mut subsequence = true;
+            for m in &handed {
+                match sent[at..].iter().position(|x| x == m) {
+                    Some(p) => at += p + 1,
+                    None => {
+                        subsequence = false;
+                        break;
+                    }
+                }
+            }
+            if !subsequence {
                 out.push(mk("messages-handed-over-out-of-order"));
                 continue;
             }
             // prefix: no gaps
-            if pos.iter().enumerate().any(|(i, p)| *p != i) {
+            if handed.len() > sent.len() || handed[..] != sent[..handed.len()] {
                 out.push(mk("gap:later-message-handed-over-before-an-earlier-one"));
                 continue;
             }
             // acknowledged and discarded before hand-over
-            if sent.iter().any(|m| !pend.contains(m) && !handed.contains(m)) {
+            if sent.iter().any(|m| count(&sent, *m) > count(&handed, *m) + count(&pend, *m)) {
                 out.push(mk("gap:message-acknowledged-and-discarded-before-hand-over"));
             }
         }
@@ -273,6 +302,13 @@ pub fn check_logs(s: &LModelState, logs: &Logs, quiet: Option<&[BTreeSet<u8>]>) 
 fn is_overtaking_finding(s: &LModelState, v: &LinkViolation, logs: &Logs) -> bool {
     if !v.what.starts_with("gap:") {
         return false;
+    }
+    {
+        // sequencers can only be recovered from the send log when payloads are unique
+        let mut seen = BTreeSet::new();
+        if logs.sent[v.sender].iter().any(|(_, m)| !seen.insert(*m)) {
+            return false;
+        }
     }
     let last = s.actor_states[v.receiver]
         .verif_last_delivered()
@@ -319,7 +355,7 @@ fn walk_case(case: &mut Case) {
     let sys = gen_link_system(&mut case.rng);
     let model = sys.model();
     case.sample(|| sys.to_json());
-    let profile = case.rng.below(5); // 0 reorder hard, 1 duplicate/resend, 2 drop-heavy, 3 uniform, 4 in-order with duplicates and loss
+    let profile = if sys.repeats { 4 } else { case.rng.below(5) }; // 0 reorder hard, 1 duplicate/resend, 2 drop-heavy, 3 uniform, 4 in-order with duplicates and loss
     let mut deliveries = 0;
     let mut hand_overs = 0u64;
     let mut stateless_hand_overs = 0u64;
@@ -438,6 +474,74 @@ fn walk_case(case: &mut Case) {
             trace.push(format!("{:?}", a));
             s = next;
         }
+        // Bounded progress ("once all retransmissions are acknowledged the two sequences are
+        // equal"): from wherever the hostile walk ended, faults stop and a fair schedule runs -
+        // every resend timer fires, then everything in flight is delivered lowest sequencer
+        // first (so nothing overtakes anything), for a few rounds. A correct link then has
+        // handed over everything that was sent and has nothing left pending. Skipped when the
+        // recorded finding already struck in this case (a skipped message never arrives).
+        if finding_reported || !check_logs(&s, &logs, None).is_empty() {
+            continue;
+        }
+        let mut complete = false;
+        for _round in 0..8 {
+            let timeouts: Vec<LAction> = model.next_steps(&s).into_iter().map(|(a, _)| a).filter(|a| matches!(a, ActorModelAction::Timeout(..))).collect();
+            for a in timeouts {
+                let (next, evs) = recorded(|| model.next_state(&s, a.clone()));
+                if let Some(next) = next {
+                    logs.apply(&evs);
+                    trace.push(format!("drain {:?}", a));
+                    s = next;
+                }
+            }
+            let mut deliveries: Vec<LAction> = model.next_steps(&s).into_iter().map(|(a, _)| a).filter(|a| matches!(a, ActorModelAction::Deliver { .. })).collect();
+            deliveries.sort_by_key(|a| match a {
+                ActorModelAction::Deliver { msg: MsgWrapper::Deliver(q, _), .. } => (0, *q),
+                ActorModelAction::Deliver { msg: MsgWrapper::Ack(q), .. } => (1, *q),
+                _ => (2, 0),
+            });
+            for a in deliveries {
+                let (next, evs) = recorded(|| model.next_state(&s, a.clone()));
+                if let Some(next) = next {
+                    logs.apply(&evs);
+                    trace.push(format!("drain {:?}", a));
+                    s = next;
+                }
+            }
+            case.add("drain_rounds", 1);
+            let all_equal = (0..sys.actors.len()).all(|a| {
+                (0..sys.actors.len()).all(|b| {
+                    a == b || {
+                        let sent: Vec<u8> = logs.sent[a].iter().filter(|(d, _)| *d == b).map(|(_, m)| *m).collect();
+                        let handed: Vec<u8> = logs.handed[b].iter().filter(|(src, _)| *src == a).map(|(_, m)| *m).collect();
+                        sent == handed
+                    }
+                })
+            });
+            let nothing_pending = s.actor_states.iter().all(|a| a.verif_pending_ack().is_empty());
+            if let Some(v) = check_logs(&s, &logs, None).into_iter().next() {
+                // a safety violation during the fault-free continuation is a violation like any other
+                report(case, &sys, &s, &v, &logs, &trace, "fault-free continuation of a hostile walk");
+                return;
+            }
+            if all_equal && nothing_pending {
+                complete = true;
+                break;
+            }
+        }
+        case.add("drains_run", 1);
+        if complete {
+            case.add("drains_completed", 1);
+        } else {
+            case.violation(
+                "C16/link/fair-fault-free-continuation-never-completes-the-hand-over",
+                json!({"system": sys.to_json(), "handler_logs": format!("{:?}", logs),
+                       "pending": s.actor_states.iter().map(|a| format!("{:?}", a.verif_pending_ack())).collect::<Vec<_>>(),
+                       "trace_tail": trace.iter().rev().take(40).rev().collect::<Vec<_>>(),
+                       "note": "8 rounds of: fire every enabled timer, then deliver everything in flight, lowest sequencer first; no drops"}),
+            );
+            return;
+        }
     }
     case.add(&format!("walk_profile_{}", profile), 1);
     case.add("hand_overs_observed", hand_overs);
@@ -445,11 +549,17 @@ fn walk_case(case: &mut Case) {
     if any_quiet {
         case.add("walks_with_stateless_reactions", 1);
     }
+    if sys.repeats {
+        case.add("walks_with_repeated_payloads", 1);
+    }
     case.distinct(crate::ctx::hash_of(&format!("{:?}", sys.actors)) ^ profile as u64, deliveries >= 4 && (reordered || profile == 4));
 }
 
 fn checker_case(case: &mut Case) {
-    let sys = gen_link_system(&mut case.rng);
+    let mut sys = gen_link_system(&mut case.rng);
+    while sys.repeats {
+        sys = gen_link_system(&mut case.rng);
+    }
     case.sample(|| sys.to_json());
     case.distinct(crate::ctx::hash_of(&format!("{:?}", sys.actors)), true);
     let model = sys.model();
